@@ -12,6 +12,49 @@ def c17_casesv(lines):
             "].\nEval vm_compute in verdicts.\n")
 
 
+def c17_race(tier):
+    """The concurrent phase once more in a harness built with the race detector: ResolveUrlPath is specified as a pure
+    function, a reported data race between two calls means shared mutable state inside it. VIOL lines (result differs from
+    the sequential call) are failing inputs; a race report without a differing result is reported without a failing input."""
+    import os
+    import shutil
+    import vcheck as V
+    probs, cov = [], {}
+    ok, out, exe = V.build_harness("C17", race=True)
+    if not ok:
+        probs.append(("tie", "harness (-race build) does not build", {"broken": "harness build (-race)", "log_tail": out[-2000:]}))
+        return 0, 0, probs, cov
+    rundir = os.path.join(V.BUILD, "run-C17race-%d" % os.getpid())
+    shutil.rmtree(rundir, ignore_errors=True)
+    os.makedirs(rundir)
+    try:
+        seed = os.environ.get("VERIF_SEED") or "1"
+        env = dict(os.environ, C17_MODE="concurrent", C17_CONC_ITERS="4000" if tier == "quick" else "40000",
+                   GORACE="halt_on_error=0 exitcode=66", VERIF_DIR=V.VERIF)
+        rc, out, dt = V.run([exe, "-out", rundir, "-tier", tier, "-seed", seed], env=env, timeout=900)
+        cases = os.path.join(rundir, "cases.txt")
+        nviol = 0
+        if os.path.exists(cases):
+            for line in open(cases, errors="replace"):
+                if line.startswith("VIOL "):
+                    nviol += 1
+                    if nviol <= 5:
+                        probs.append(("specfail", "implementation violates the oracle (-race build): " + line.strip()[:300],
+                                      {"case": line.strip(), "sig": "escape"}))
+        races = out.count("WARNING: DATA RACE")
+        cov["concurrent_under_race_detector"] = {"rc": rc, "data_races_reported": races, "violating_lines": nviol, "wall_s": round(dt, 1)}
+        if races or rc == 66:
+            first = out[out.find("WARNING: DATA RACE"):][:1500] if races else out[-800:]
+            probs.append(("tie", "the race detector reports a data race between concurrent ResolveUrlPath calls (the function is "
+                          "specified as pure): " + " | ".join(l.strip() for l in first.splitlines()[:8]),
+                          {"broken": "C17 concurrent calls under -race", "report": first}))
+        elif rc != 0:
+            probs.append(("tie", "harness (-race build, concurrent phase) failed rc=%d: %s" % (rc, out[-400:]), {"broken": "harness run (-race)"}))
+    finally:
+        shutil.rmtree(rundir, ignore_errors=True)
+    return 0, 0, probs, cov
+
+
 def c17_sig(line):
     return "escape"
 
@@ -23,12 +66,16 @@ CFG = dict(
     ocaml="c17",
     casesv=c17_casesv,
     sig=c17_sig,
+    static=[c17_race],
     rule=("every URL path of length <= L over {'/', '.', 'a', '\\\\'} (L=6 quick: 5,461 strings; L=8 thorough: 87,381) x 12 base "
           "spellings (absolute, relative, '.', trailing slash, '..' inside, '//', '/', '..', '../x', 'a/../..'), plus seeded "
           "random byte strings for base (non-empty) and path (any byte incl. NUL and >= 0x80); call sequences in one process "
           "over nested bases (b, b/sub, b/sub/sub2; absolute, relative, '/', '../up', trailing slash) with url paths that are the "
           "same text once concatenated with the base ('/sub/..' vs '/..', '/sub/../..' vs '/../..', '/sub/x' vs '/x', '//sub/..'), "
           "both orders, alternating, and with 0/300/3000 unrelated calls in between, at the start and again at the end of the run; "
+          "a concurrent phase: 64 goroutines (4 x GOMAXPROCS) x 60,000 calls (thorough 600,000) on clean / dot-dot paths "
+          "without leading slash and the usual shapes, every result compared with the same call made sequentially (differences "
+          "are VIOL lines and are judged by the Coq predicate), and once more under the race detector; "
           "long paths: 100..5000 repetitions of './', '/', 'x/../', './/' followed by '../../etc/passwd', '..', '../..', with and "
           "without leading slash (tag L, not part of the in-Coq sample); one case = one (base, path) "
           "pair with the returned string; non-trivial = distinct case lines"),
@@ -38,7 +85,9 @@ CFG = dict(
                   "cross-checked by the Go-side oracle filepath.Rel(filepath.Clean(base), result)",
                   "'beneath' = lexical containment (cleaned base + ordinary names); symbolic links inside the base directory are "
                   "outside the property (the property is about the returned path string)"],
-    assumptions=["POSIX file paths: separator '/', no volume names, filepath.FromSlash is the identity (GOOS=linux)",
+    assumptions=["the theorems are about the function of (base, path); that concurrent calls do not interfere (no shared mutable state "
+                 "inside ResolveUrlPath) is checked by the concurrent phase and the race detector, not proved",
+                 "POSIX file paths: separator '/', no volume names, filepath.FromSlash is the identity (GOOS=linux)",
                  "base is non-empty (ResolveUrlPath(\"\", p) returns an absolute path below \"/\"; excluded by the property's quantifier)"],
 )
 CFG["manifest"] = dict(
